@@ -58,11 +58,7 @@ def uniqueText (f : Xml) (tag : Str) : Option (Option Str) :=
 def faultOk (f : Xml) (status : Int) (o : OutObs) : Bool :=
   match uniqueText f errorCodeTag, uniqueText f errorDescTag with
   | some codeStr, some desc =>
-    let code : Option (Option Int) :=
-      match codeStr with
-      | none => some none
-      | some [] => some none
-      | some s => (pyInt? s).map some
+    let code : Option (Option Int) := faultCode codeStr
     (match code with
      | none => true                                 -- non-numeric errorCode: not judged
      | some c =>
@@ -133,5 +129,16 @@ def ok (O : Oracles) (X : XmlOracle) (a : ActionDecl) (status : Int) (body : Opt
                 if a.strict then isExcOf o "UpnpError"        -- foreign namespace, strict
                 else if atBody doc (fun e => Xml.localOf e.tag == a.name ++ "Response".toList) then responseOk O a r o else true
             | _ => if a.strict then isExcOf o "UpnpError" else true
+
+/-- the observable form of a model outcome (`anc` = library ancestors by class name) -/
+def observe (anc : String → List String) : Outcome → OutObs
+  | .ret items => .ret items
+  | .exc e =>
+    let info : ExcInfo := { cls := e.cls, mro := anc e.cls }
+    match e with
+    | .actionError c d => .exc { info := info, code := c, desc := d }
+    | .actionResponseError c d s => .exc { info := info, code := c, desc := d, status := some s }
+    | .responseError s => .exc { info := info, status := some s }
+    | _ => .exc { info := info }
 
 end Upnp.C07
